@@ -68,7 +68,28 @@ func (c07) Generate(seed uint64, i int, tier string) *Scenario {
 	default:
 		sc.Family = "hist"
 	}
-	g := NewGen(r.Fork(), GenOpts{D: sc.D, Units: r.Range(6, 14), ErrPermille: r.Pick3(0, 10, 30), Probes: true, Host: true, JSON: true, MutGlobals: true})
+	// 0-2 loadable modules; the host's Load runs them on the importing thread
+	// (their steps count against its budget) or on a fresh thread
+	var loads []LoadSpec
+	if r.Chance(2, 5) {
+		nm := r.Range(1, 2)
+		for m := 0; m < nm; m++ {
+			name := fmt.Sprintf("lib%d.star", m)
+			n0, n1, n2 := fmt.Sprintf("lib%d_v0", m), fmt.Sprintf("lib%d_v1", m), fmt.Sprintf("lib%d_v2", m)
+			units := []string{
+				fmt.Sprintf("%s = {(\"lib-key-%%d-with-padding\" %% q): q for q in range(%d)}\n", n0, r.Range(2, 25)),
+				fmt.Sprintf("def %s_mk(n):\n    acc = []\n    for i in range(n):\n        acc.append(i * %d)\n    probe(len(acc))\n    return acc\n%s = %s_mk(%d)\n", n1, r.Range(1, 5), n1, n1, r.Range(0, 30)),
+				fmt.Sprintf("def %s():\n    return len(%q)\n", n2, n2),
+			}
+			sc.Mods = append(sc.Mods, Module{Name: name, Units: units})
+			loads = append(loads, LoadSpec{Module: name, Names: []string{n0, n1, n2}, Kinds: []kind{kDictSI, kListI, kInt}, Fn: []bool{false, false, true}})
+		}
+		sc.N["loadsame"] = int64(r.Intn(2))
+		if r.Chance(2, 3) {
+			sc.N["loadsame"] = 1
+		}
+	}
+	g := NewGen(r.Fork(), GenOpts{D: sc.D, Units: r.Range(6, 14), ErrPermille: r.Pick3(0, 10, 30), Probes: true, Host: true, JSON: true, MutGlobals: true, Loads: loads})
 	sc.Prog = g.Program()
 	nonterm := r.Chance(1, 4)
 	if nonterm && sc.Family != "hist" {
@@ -167,8 +188,16 @@ type c07run struct {
 }
 
 // exec runs the scenario's program once on a fresh world/thread (unscheduled).
+// c07world: a world whose threads can load the scenario's modules (non-caching
+// loader, on the importing thread itself or on a fresh one).
+func c07world(sc *Scenario, s *sched.Sched, faults []Fault) *World {
+	w := NewWorld(s, faults)
+	w.Mods, w.D, w.LoadSame = sc.Mods, sc.D, sc.Knob("loadsame", 0) == 1
+	return w
+}
+
 func c07exec(sc *Scenario, prog *starlark.Program, faults []Fault, setup func(c *TaskCtx)) c07run {
-	w := NewWorld(nil, faults)
+	w := c07world(sc, nil, faults)
 	c := w.NewCtx("main")
 	pre := w.Predeclared()
 	if setup != nil {
@@ -453,7 +482,7 @@ func isPrefix(a, b []string) bool {
 
 func (p c07) runAsync(sc *Scenario, prog *starlark.Program, ref c07run, res *Result) {
 	s := sched.New(sc.Sched)
-	w := NewWorld(s, sc.Faults)
+	w := c07world(sc, s, sc.Faults)
 	c := w.NewCtx("main")
 	c.YieldInVM = true
 	c.TickPerExec = 1
@@ -601,7 +630,7 @@ func (p c07) runHist(sc *Scenario, prog *starlark.Program, ref c07run, S uint64,
 	if long || ref.panic != nil {
 		return
 	}
-	w := NewWorld(nil, nil)
+	w := c07world(sc, nil, nil)
 	c := w.NewCtx("main")
 	pre := w.Predeclared()
 	// Small auxiliary programs with known cost.
